@@ -237,9 +237,18 @@ def h_reduce(maxi):
                        and miller.reduce_indices(blk2).reshape(-1, 3).tolist() == miller.reduce_indices(blk2.reshape(-1, 3)).tolist())
         except Exception as e:
             lead_ok = False
+        # all Miller-Bravais rows [u v t w] with t = -(u+v): coprime over ALL four indices, same direction
+        bad4 = 0; n4 = 0
+        rows4 = np.array([[u, v, -(u + v), w] for u, v, w in itertools.product(range(-maxi, maxi + 1), repeat=3) if any((u, v, w))])
+        red4 = miller.reduce_indices(rows4)
+        for v, r in zip(rows4.tolist(), np.asarray(red4).tolist()):
+            n4 += 1
+            g = math.gcd(*[abs(int(x)) for x in v])
+            bad4 += [int(x) for x in r] != [int(x) // g for x in v]
         ai = miller.all_indices(2); air = miller.all_indices(2, reduce=True)
         return [(f'reduce_indices: coprime positive-multiple for all {n} non-zero triples with |index|<={maxi}', bad == 0),
                 ('reduce_indices on arrays with two leading dimensions, shapes (2,2,3) and (3,2,3), equals the row-by-row result', bool(lead_ok)),
+                (f'reduce_indices on all {n4} Miller-Bravais rows [u v -(u+v) w] with |u|,|v|,|w|<={maxi}: divided by the gcd of all four indices', bad4 == 0),
                 ('reduce_indices on a single vector and on 4-index rows', list(one) == [1, -2, 3] and four.tolist() == [[1, 1, -2, 0], [1, 0, -1, 2]]),
                 ('all_indices(2) lists every non-zero triple once; reduce=True keeps the coprime ones', len(ai) == 124 and len(set(map(tuple, ai.tolist()))) == 124 and all(math.gcd(*[abs(x) for x in r]) == 1 for r in air.tolist()) and len(set(map(tuple, air.tolist()))) == len(air))]
     return fn
